@@ -25,6 +25,8 @@ func rawDefinition(mode, um int, ro bool) (*GetOpt, *bool, *string) {
 	cmd := opt.NewCommand("c", "")
 	cmd.Bool("x", false)
 	cmd.SetCommandFn(func(c context.Context, o *GetOpt, a []string) error { return nil })
+	sub := cmd.NewCommand("sub", "")
+	sub.SetCommandFn(func(c context.Context, o *GetOpt, a []string) error { return nil })
 	return opt, b, s
 }
 
@@ -55,25 +57,50 @@ func conservationAsserts(args, remaining []string, um int) {
 			return
 		}
 	}
+	// rules (ii)-(iv): the tokens that must be retained, in input order
+	var must []string
 	termAt := -1 // first `--` reached by the parser
 	for j, t := range args {
 		prevDash := j > 0 && strings.HasPrefix(args[j-1], "-")
-		if t == "--" && !prevDash && termAt < 0 {
+		if termAt >= 0 {
+			// (iv) the tail behind the first `--` is there verbatim
+			must = append(must, t)
+			continue
+		}
+		if t == "--" && !prevDash {
 			termAt = j
+			continue
 		}
 		// (ii) plain positionals are retained
-		if !strings.HasPrefix(t, "-") && t != "c" && !prevDash {
-			vAssert("positional-retained", contains(remaining, t))
+		if !strings.HasPrefix(t, "-") && t != "c" && t != "sub" && !prevDash {
+			must = append(must, t)
+			continue
 		}
 		// (iii) unknown long options stay in Pass and Warn mode
-		if um != 0 && strings.HasPrefix(t, "--") && t != "--" && !prevDash && (termAt < 0 || termAt > j) {
+		if um != 0 && strings.HasPrefix(t, "--") && t != "--" && !prevDash {
 			name := strings.SplitN(strings.TrimPrefix(t, "--"), "=", 2)[0]
 			if name != "" && !strings.HasPrefix("b", name) && !strings.HasPrefix("s", name) && !strings.HasPrefix("x", name) {
-				vAssert("unknown-retained", contains(remaining, t))
+				must = append(must, t)
 			}
 		}
 	}
-	// (iv) the tail behind the first `--` is there verbatim
+	// each of them has its own place in remaining, in order (multiplicity counts)
+	at := 0
+	for _, t := range must {
+		found := false
+		for at < len(remaining) {
+			hit := remaining[at] == t
+			at++
+			if hit {
+				found = true
+				break
+			}
+		}
+		vAssert("retained-in-order", found)
+		if !found {
+			return
+		}
+	}
 	if termAt >= 0 {
 		vAssert("tail-verbatim", endsWith(remaining, args[termAt+1:]...))
 	}
@@ -108,9 +135,9 @@ func VerifC03_Raw() {
 func VerifC03_Constructed() {
 	mode := vInt("mode", 0, 2)
 	um := vInt("um", 1, 2)
-	shape := vInt("shape", 0, 3)
-	p := positional("p", "c")
-	q := positional("q", "c")
+	shape := vInt("shape", 0, 8)
+	p := positional("p", "c", "sub")
+	q := positional("q", "c", "sub")
 	vAssume(p != q)
 	opt, _, _ := rawDefinition(mode, um, false)
 	var args, want []string
@@ -125,6 +152,18 @@ func VerifC03_Constructed() {
 		// a bundle whose letters are all unknown appears once
 		vAssume(mode == 1)
 		args, want = []string{"-yz", p}, []string{"-yz", p}
+	case 4:
+		// text between two command levels
+		args, want = []string{"c", p, "sub", q}, []string{p, q}
+	case 5:
+		args, want = []string{p, "c", q, "sub", p}, []string{p, q, p}
+	case 6:
+		args, want = []string{"c", "--typo=1", "sub", "--x"}, []string{"--typo=1"}
+	case 7:
+		// the same unknown token twice, a known option in between
+		args, want = []string{"--typo", "--b", "--typo", p}, []string{"--typo", "--typo", p}
+	case 8:
+		args, want = []string{"-", "-", p, p}, []string{"-", "-", p, p}
 	}
 	vPhase("run")
 	remaining, err := opt.Parse(args)
